@@ -74,13 +74,18 @@ func concretiseRule(r fwRule) netceptor.FirewallRuleData {
 			d[keyName(k, r.KeyCase)] = v
 		}
 	}
-	switch r.Extra {
-	case "unknownkey":
+	nonString := map[string]any{"int": 5, "bool": false, "nil": nil, "list": []any{"a"}, "map": map[any]any{"a": "b"}, "float": 1.5}
+	switch {
+	case r.Extra == "unknownkey":
 		d["bogus"] = "x"
-	case "nonstring_field":
-		d[keyName("tonode", r.KeyCase)] = 5
-	case "nonstring_action":
+	case r.Extra == "unknownkey_nil":
+		d["tonoed"] = nil
+	case strings.HasPrefix(r.Extra, "nonstring_field_"):
+		d[keyName("tonode", r.KeyCase)] = nonString[strings.TrimPrefix(r.Extra, "nonstring_field_")]
+	case r.Extra == "nonstring_action":
 		d[keyName("action", r.KeyCase)] = true
+	case r.Extra == "nonstring_action_nil":
+		d[keyName("action", r.KeyCase)] = nil
 	}
 
 	return d
